@@ -271,6 +271,41 @@ void runC02() {
   for (long idx = 0; idx < n; ++idx) {
     if (!vrt::selected(idx)) continue;
     vrt::Rng r = vrt::caseRng(idx);
+    if (r.chance(0.09)) {
+      // inline-depth cap: see h_pool_depth.cpp
+      DepthSpec d;
+      d.N = static_cast<int>(r.range(1, 3));
+      d.setKind = static_cast<int>(r.range(1, 3));
+      d.via = r.chance(0.4) ? 1 : 0;
+      d.bulkN = static_cast<int>(r.range(1, 3));
+      d.chainLen = static_cast<int>(r.range(34, 44));
+      d.leaves = static_cast<int>(r.range(2, 5));
+      d.leafDwellUs = static_cast<int>(r.range(1000, 20000));
+      // TaskSet::schedule runs f() without a depth guard once outstanding > load factor: keep that branch out
+      d.stealMult = d.setKind == 1 ? 64 : (r.chance(0.5) ? 1 : 4);
+      d.fillers = 2 * d.N + static_cast<int>(r.range(4, 12));
+      d.finish = static_cast<int>(r.below(3));
+      const char* skn[] = {"", "TS", "CTSh", "CTSl"};
+      J spec = d.json();
+      vrt::caseBegin(idx, std::string(skn[d.setKind]) + "/inline-depth-cap/" + (d.via ? "bulk" : "schedule"), spec);
+      vrt::watchdogArm();
+      DepthObs o = runDepthCap(d);
+      vrt::watchdogDisarm();
+      barrierVerdict(o.c, spec);
+      if (o.c.dup || o.c.lost) vrt::violation("a task-set task did not run exactly once", J().kv("lost", o.c.lost).kv("dup", o.c.dup).kv("obs", o.c.json()).kv("spec", spec), "count");
+      std::vector<std::string> cls{skn[d.setKind], "poolN", "recursive", d.finish == 0 ? "wait" : d.finish == 1 ? "tryWait" : "dtor-barrier"};
+      bool capped = o.capHits > 0 && o.maxInlineDepth >= dispenso::detail::kMaxInlineDepth;
+      if (capped) {
+        cls.push_back("inline-depth-cap");
+        cls.push_back(std::string("inline-depth-cap:") + skn[d.setKind] + (d.via ? ".bulk" : ".schedule"));
+      }
+      if (o.tryWait0Polls) cls.push_back("tryWait0-polled");
+      ranOnClasses(o.c, cls);
+      vrt::caseEnd(J().kv("maxNest", o.maxNest).kv("maxInlineDepth", o.maxInlineDepth).kv("capHits", o.capHits).kv("tryWait0Polls", o.tryWait0Polls)
+                       .kv("tryWait0True", o.tryWait0True).kv("obs", o.c.json()),
+                   capped ? spec.str() : "", cls);
+      continue;
+    }
     if (r.chance(0.06)) {
       // ring overflow: all workers held, 5 owners push ring-path bulks up to their load factor (5 per ring
       // each > 16 slots), so the fall-back from a full per-thread ring to the central queue is taken
